@@ -400,6 +400,31 @@ def check_volume(run, tier, rng):
     run.count("volume_cases", reps)
 
 
+def posterior_trim_probe(run):
+    """the trimming contract as the user meets it (Sampler.posterior with trim_importance_weights=True): every returned array
+    has the trimmed length and the rows stay aligned - the returned log-weights are those of the returned samples"""
+    from tempest import Sampler
+    s = Sampler(lambda u: 8 * u - 4, lambda x: -0.5 * float(np.sum(x ** 2)), n_dim=2, n_particles=16, clustering=False, random_state=4)
+    s.run(n_total=40, progress=False)
+    logw_all, _ = s.state.compute_logw_and_logz(1.0)
+    x_all = s.state.get_history("x", flat=True)
+    for ess_trim in (0.99, 0.9, 0.6):
+        x, w, l, lw = s.posterior(resample=False, trim_importance_weights=True, return_logw=True, ess_trim=ess_trim, bins_trim=50)
+        run.case(key=("posterior-trim", ess_trim), nontrivial=len(x) < len(x_all))
+        what = dict(ess_trim=ess_trim, bins_trim=50, pool=len(x_all), kept=len(x))
+        if not (len(x) == len(w) == len(l) == len(lw)):
+            run.fail("trim-weights-misaligned", f"posterior(trim) returns arrays of lengths {len(x)}, {len(w)}, {len(l)}, {len(lw)}", **what)
+            continue
+        # row identity: each returned sample is a pool row; its returned log-weight must be that row's log-weight
+        for i in range(len(x)):
+            j = np.where(np.all(x_all == x[i], axis=1))[0]
+            if len(j) == 0 or not np.any(np.isclose(logw_all[j], lw[i], rtol=0, atol=1e-12)):
+                run.fail("trim-weights-misaligned", f"posterior(trim): returned sample {i} comes with a log-weight that is not its own", **what)
+                break
+        if abs(float(np.sum(w)) - 1) > 1e-9:
+            run.fail("trim-not-normalised", f"posterior(trim) weights sum to {float(np.sum(w))}", **what)
+
+
 def search(run):
     rng = random.Random(7)
     check_ess(run, "quick", rng)
@@ -433,6 +458,7 @@ def main(tier, seed):
         check_ess(run, tier, rng)
         check_trim(run, tier, rng)
         check_volume(run, tier, rng)
+        posterior_trim_probe(run)
     except Exception:
         import traceback
         run.broken.append(("harness-exception", traceback.format_exc()[-1500:]))
